@@ -1555,7 +1555,7 @@ def attacks(rng):
                      ("1-byte", b"P"), ("31-bytes", build_pack("a", []).data[:31])):
         add("header:" + tag, raw)
     # deep chains (no recursion, no quadratic blow-up)
-    n = 400
+    n = 200
     items = [("full", 3, blob)]
     cur = blob
     for i in range(n):
@@ -2604,8 +2604,8 @@ def _midx_objects():
     """two packs of four 51-byte blobs each, stored uncompressed: every entry is 64 bytes long, so the offsets are
     12, 76, 140, 204 — several pairs differ in a single bit, and all objects have EQUAL length (a redirected offset
     still yields an object a delta applies to)"""
-    A = [(b"A%d " % i) * 12 + b"end" for i in range(4)]
-    B = [(b"B%d " % i) * 12 + b"end" for i in range(4)]
+    A = [(b"A%d " % i) * 16 + b"end" for i in range(4)]
+    B = [(b"B%d " % i) * 16 + b"end" for i in range(4)]
     assert all(len(x) == 51 for x in A + B)
     return A, B
 
@@ -2703,10 +2703,9 @@ def impl_midx_batch(a):
             finally:
                 st.close()
             if m.get("ingest"):
-                for path in ("thin", "addpack", "packdata"):
-                    work = tm["root"] + "-work"
-                    shutil.rmtree(work, ignore_errors=True)
-                    shutil.copytree(tm["root"], work)
+                work = tm["root"]
+                keep = {p_ for p_, _ in _listing(work)}
+                for path in m.get("paths") or ("thin", "addpack", "packdata"):
                     st = DiskObjectStore(os.path.join(work, "objects"))
                     try:
                         try:
@@ -2737,7 +2736,9 @@ def impl_midx_batch(a):
                                     pass
                     finally:
                         st.close()
-                        shutil.rmtree(work, ignore_errors=True)
+                        for p_, _ in _listing(work):
+                            if p_ not in keep:
+                                os.remove(os.path.join(work, p_))
             out.append(rep)
     finally:
         with open(tm["path"], "wb") as f:
@@ -2785,7 +2786,11 @@ def _stream_midx(ctx, w):
             if not ctx.thorough and r in ("OIDL", "PNAM") and bit not in (0, 7) and (pos + bit) % 4:
                 continue
             m = raw[:pos] + bytes([raw[pos] ^ (1 << bit)]) + raw[pos + 1:]
-            ing = r in ("OOFF", "LOFF") or (ctx.thorough and r in ("OIDL", "chunk-table")) or (pos * 8 + bit) % (16 if ctx.thorough else 64) == 0
+            if ctx.thorough:
+                ing = r in ("OOFF", "LOFF", "OIDL", "chunk-table") or (pos * 8 + bit) % 16 == 0
+            else:
+                # OOFF entries are (pack id: 4 bytes, offset: 4 bytes): the low bytes are where one bit leads to another valid pack / offset
+                ing = (r in ("OOFF", "LOFF") and (pos - reg[r][0]) % 4 == 3) or (pos * 8 + bit) % 96 == 0
             muts.append((f"{r}:bit", pos, m, ing))
     for cut in range(0, len(raw), 1 if ctx.thorough else 37):
         muts.append(("trunc", cut, raw[:cut], cut % 5 == 0))
@@ -2794,7 +2799,8 @@ def _stream_midx(ctx, w):
     CH = 60
     for s in range(0, len(muts), CH):
         part = muts[s:s + CH]
-        rp = w.ask({"mod": MOD, "op": "midx_batch", "args": {"scratch": str(ctx.scratch), "mutants": [{"midx": hx(m), "ingest": ing} for _, _, m, ing in part]}},
+        rp = w.ask({"mod": MOD, "op": "midx_batch", "args": {"scratch": str(ctx.scratch), "mutants": [{"midx": hx(m), "ingest": ing, "paths": None if ctx.thorough else ["thin", "addpack"]}
+                                                                                          for _, _, m, ing in part]}},
                    timeout=120)
         if "r" not in rp:
             # isolate
